@@ -136,6 +136,9 @@ def enumerate_cases(tier):
             # every colour format once on every run (alternating flag / file): each is one table entry in the tool
             for k, v1 in enumerate(vals):
                 yield {"t": "single", "field": field, "family": fams[0], "channel": ("flag", "file")[k % 2], "value": v1, "other": vals[(k + 1) % len(vals)]}
+    # every CFF-flavoured colour format written to an .otf file: format x extension decide the outline table together
+    for k, v1 in enumerate(["cff2_colr_0", "cff_colr_0", "cff2_colr_1", "cff_colr_1"]):
+        yield {"t": "single", "field": "color_format", "family": "cff2", "channel": ("file", "flag")[k % 2], "value": v1, "other": "glyf_colr_1"}
     # CFF2 outlines (an .otf output): glyph names can only live in post there
     for ch, val in (("none", False), ("flag", True), ("both", False), ("file", True)):
         yield {"t": "single", "field": "keep_glyph_names", "family": "cff2", "channel": ch, "value": val, "other": not val}
